@@ -349,7 +349,6 @@ Section OneHotSeq.
   Variable n : Z.
   Variable enc : E -> option Z.
   Variable dec : Z -> option E.
-  Variable steps : E -> Z.
   (* the wrapped OneHotEncoding is a bijection onto [0, n) on the events of interest (C09) *)
   Variable valid : E -> Prop.
   Hypothesis enc_ok : forall e, valid e -> exists c, enc e = Some c /\ 0 <= c < n /\ dec c = Some e.
@@ -384,6 +383,7 @@ Section OneHotSeq.
     exists c. unfold ohi_input, ohs_label. rewrite py_nth_pos, He by lia. cbn. rewrite Hc. auto.
   Qed.
 
+  Variable steps : E -> Z.
   (* the wrapped decoder accepts every class index *)
   Hypothesis dec_total : forall c, 0 <= c < n -> dec c <> None.
 
